@@ -37,18 +37,51 @@ def register(K):
         isref = Val.is_R(f.t) if f.k == "val" else z3.BoolVal(True)
         return z3.And(isref, st.read("function.code", r, Int) == static_ref("code:" + qual))
 
+    OUTER = "hook.activate_safe_ml_environment"
+
+    def capture_chain(eng, start, var="also_allow"):
+        """through which nested closures `start` reaches the variable `var` of the activation: [] when its body mentions it, [g] when it
+        calls the nested function g that does (read from the working tree, at most two levels); None when it does not reach it"""
+        import ast as _ast
+        nested = {q.rsplit(".", 1)[-1]: fn for q, fn in eng.repo.qual.items() if q.startswith(OUTER + ".<locals>.") and q.count(".<locals>.") == 1}
+
+        def names(fn):
+            return {n.id for n in _ast.walk(fn) if isinstance(n, _ast.Name) and isinstance(n.ctx, _ast.Load)}
+        if start not in nested:
+            return None
+        if var in names(nested[start]):
+            return []
+        for g in sorted(names(nested[start]) & set(nested)):
+            if var in names(nested[g]):
+                return [g]
+            for h in sorted(names(nested[g]) & set(nested)):
+                if var in names(nested[h]):
+                    return [g, h]
+        return None
+
+    def ml_closure(eng, st, f, also_allow, which):
+        """the binding is the closure `which` created by activate_safe_ml_environment(also_allow): its code is that nested def and the
+        activation's also_allow is what its environment (directly, or through the nested helper it calls) holds"""
+        chain = capture_chain(eng, which)
+        if chain is None:
+            return vbool(z3.BoolVal(False))
+        conj = [code_is(eng, st, f, f"{OUTER}.<locals>.{which}")]
+        r = eng.as_ref(f, st)
+        for g in chain:
+            cell = st.read(f"function.cell.{g}", r, Val)
+            conj.append(Val.is_R(cell))
+            conj.append(st.read("function.code", Val.r(cell), Int) == static_ref(f"code:{OUTER}.<locals>.{g}"))
+            r = Val.r(cell)
+        conj.append(st.read("function.cell.also_allow", r, Val) == box(eng.materialize(also_allow, st)))
+        return vbool(z3.And(conj))
+
     @K.spec("is_ml_load")
     def is_ml_load(eng, st, f, also_allow):
-        """the binding is the closure new_load created by activate_safe_ml_environment(also_allow)"""
-        r = eng.as_ref(f, st)
-        return vbool(z3.And(code_is(eng, st, f, "hook.activate_safe_ml_environment.<locals>.new_load"),
-                            st.read("function.cell.also_allow", r, Val) == box(eng.materialize(also_allow, st))))
+        return ml_closure(eng, st, f, also_allow, "new_load")
 
     @K.spec("is_ml_loads")
     def is_ml_loads(eng, st, f, also_allow):
-        r = eng.as_ref(f, st)
-        return vbool(z3.And(code_is(eng, st, f, "hook.activate_safe_ml_environment.<locals>.new_loads"),
-                            st.read("function.cell.also_allow", r, Val) == box(eng.materialize(also_allow, st))))
+        return ml_closure(eng, st, f, also_allow, "new_loads")
 
     K.contract("hook.run_hook", params="", modifies=["pickle.load"], allocates=False,
                ensures=["is_checked_load(pickle.load)"])
